@@ -84,6 +84,13 @@ fn is_eph5(g: &Graph) -> bool {
     false
 }
 
+/// at least two Ephemeral jobs, one of which feeds a non-Ephemeral job: where the run-on-demand
+/// logic has something to decide
+fn has_two_eph(g: &Graph) -> bool {
+    g.kind.values().filter(|k| **k == Kind::E).count() >= 2
+        && g.edges.iter().any(|(a, b)| g.kind[a] == Kind::E && g.kind[b] != Kind::E)
+}
+
 fn parse_levels(s: &str) -> Vec<Level> {
     // levels separated by '/', each: letters of edit classes [dbne], f<k> maxfail, a abort, m misuse,
     // p<k> decl perms, k flaky ; e.g. "f1am/dbnef1a/db"
@@ -155,6 +162,8 @@ fn main() {
         max_states: get("maxstates", "20000").parse().unwrap(),
         fam: format!("{}:{}", fam, get("tag", "")),
         double_interrupt: get("double", "0") == "1",
+        paths: get("paths", "0").parse().unwrap(),
+        seed,
     };
     std::fs::create_dir_all(&out).unwrap();
 
@@ -175,6 +184,9 @@ fn main() {
                     for ucode in ucodes {
                         let g = graph_from_codes(n, kcode, ecode, ucode);
                         if filter == "eph5" && !is_eph5(&g) {
+                            continue;
+                        }
+                        if filter == "eph2" && !has_two_eph(&g) {
                             continue;
                         }
                         idx += 1;
@@ -202,6 +214,24 @@ fn main() {
                 let g = graph_from_codes(n, kcode, ecode, ucode);
                 universes.push((format!("r{}n{}k{}e{}u{}", i, n, kcode, ecode, ucode), g));
             }
+        }
+        "uid" => {
+            // one universe of the exhaustive / random enumeration, by its id: [r<i>]n<N>k<K>e<E>u<U>
+            let uid = get("uid", "");
+            let body = match uid.find('n') {
+                Some(i) => &uid[i..],
+                None => panic!("bad uid"),
+            };
+            let num = |a: char, b: Option<char>| -> usize {
+                let i = body.find(a).unwrap() + 1;
+                let j = match b {
+                    Some(b) => body[i..].find(b).unwrap() + i,
+                    None => body.len(),
+                };
+                body[i..j].parse().unwrap()
+            };
+            let g = graph_from_codes(num('n', Some('k')), num('k', Some('e')), num('e', Some('u')), num('u', None));
+            universes.push((uid.clone(), g));
         }
         "one" => {
             // explicit: kinds=AOE.. edges=0-1,1-2 consts=2
